@@ -78,11 +78,17 @@ def gen_world(w, n_membranes=(2, 4), small=False):
         mx = w.randrange(len(mixes))
         exps = []
         two = w.random() < 0.6
+        cu = w.choice([None, None, "GPU", "SI"])      # experiments built in code keep the units they were stated in
         for r in (mixes[mx]["first"], mixes[mx]["second"]):
             t0 = wg.rnd(w, 303.15, 333.15, 2)
             ea = w.choice([None, wg.rnd(w, 8000, 60000, 0)])
-            for j in range(2 if (two or ea is None) else 1):
-                exps.append({"T": round(t0 + 12.0 * j, 2), "component": r, "permeance": [wg.logu(w, 1e-4, 5e-2), None], "ea": ea})
+            mw_r = wg.MW.get(r.get("builtin"), None) if "builtin" in r else comps[r["custom"]]["mw"]
+            for j in range(w.choice([2, 3]) if (two or ea is None) else 1):
+                pk = wg.logu(w, 1e-4, 5e-2) * (1.0 + 0.35 * j)
+                pv_ = [float("%.9g" % wg.kg_to_units(pk, cu, mw_r)), cu] if (cu and mw_r) else [pk, None]
+                exps.append({"T": round(t0 + 12.0 * j, 2), "component": r, "permeance": pv_, "ea": ea})
+        if w.random() < 0.4:
+            w.shuffle(exps)                            # not sorted by temperature / component
         membranes.append({"dir": "m%d" % len(membranes), "constructed": True, "experiments": exps, "mixture_ref": {"custom": mx},
                           "has_ideal": True, "ideal_temps": sorted({e["T"] for e in exps}), "sets": [], "t0": exps[0]["T"]})
     # twins: a second object that shares its *name* (and temperatures) with an earlier one but holds
@@ -242,6 +248,8 @@ def synth_points(w, npts=None, ntemps=None, endpoints=0.35):
     a = [w.uniform(-3, 3) for _ in range(n)]
     b = [w.uniform(1500, 4500)] + [w.uniform(-800, 800) for _ in range(m)]
     temps = sorted({round(303.15 + 12.0 * j + w.uniform(0, 6), 2) for j in range(ntemps)})
+    if w.random() < 0.2:
+        temps = sorted({int(t) for t in temps})           # temperatures typed as integers (e.g. read from a CSV column of whole numbers)
     noise = w.choice([0.0, 0.01, 0.05])
     pts = []
     for k in range(npts):
@@ -618,7 +626,12 @@ def g_fit_vle(o, M, methods=None):
 
 
 def grid(o, k=4):
-    return [[wg.rnd(o, 0.0, 1.0, 4), wg.rnd(o, 283.15, 383.15, 2)] for _ in range(k)]
+    g = [[wg.rnd(o, 0.0, 1.0, 4), wg.rnd(o, 283.15, 383.15, 2)] for _ in range(k)]
+    if o.random() < 0.3:
+        g[o.randrange(k)][1] = o.randint(290, 380)        # an integer temperature is a legal argument
+    if o.random() < 0.2:
+        g[o.randrange(k)][0] = o.choice([0, 1])           # so is an integer composition
+    return g
 
 
 def g_fn_op(o, M):
